@@ -242,7 +242,7 @@ def rule_r02e(chk):
     import tinfo
     facts = chk.facts
     rid = "R02e"
-    chk.rule(rid, "Op::type_info: a fallible operand that is always evaluated makes the operation fallible (also with a constant divisor)", floor=13)
+    chk.rule(rid, "type_info of Op / Not / Group / Query: a fallible operand that is always evaluated makes the expression fallible (also with a constant divisor)", floor=17)
     if not facts.has(OP_TYPE_INFO):
         chk.fail_closed(rid, "anchor not found: %s" % OP_TYPE_INFO)
         return
@@ -296,3 +296,28 @@ def rule_r02e(chk):
                           "neither handled nor reported (e.g. `to_int(.x) / 2` compiles without `!` and fails at run time); %d operand configurations affected"
                           % (sym[opc], "left" if side == "lhs" else "right", "|".join(kl if side == "lhs" else kr),
                              " and a non-zero literal divisor" if withc else "", len(bad)), detail=d)
+    # single-operand expressions: the operand is always evaluated, so its fallibility is the expression's
+    Q = "compiler::expression::query::Query"
+    cases = [("Not", "compiler::expression::not::Not", lambda: tinfo.Enum("compiler::expression::not::Not", None, {"inner": tinfo.boxed(tinfo.Expr("x"))})),
+             ("Group", "compiler::expression::group::Group", lambda: tinfo.Enum("compiler::expression::group::Group", None, {"inner": tinfo.boxed(tinfo.Expr("x"))})),
+             ("Query over a function call", Q, lambda: tinfo.Enum(Q, None, {"target": tinfo.Enum(Q.replace("Query", "Target"), "FunctionCall", {"0": tinfo.Expr("x")}), "path": tinfo.UNK})),
+             ("Query over a container", Q, lambda: tinfo.Enum(Q, None, {"target": tinfo.Enum(Q.replace("Query", "Target"), "Container", {"0": tinfo.Expr("x")}), "path": tinfo.UNK}))]
+    for label, ty, mk in cases:
+        name = "<%s as compiler::expression::Expression>::type_info" % ty
+        d = {"expression": label}
+        if not facts.has(name):
+            chk.instance(rid, d, ok=None)
+            chk.fail_closed(rid, "anchor not found: %s" % name)
+            continue
+        try:
+            td, it = tinfo.evaluate_type_info(facts, name, mk(), {"x": tinfo.TD({"boolean"} if label == "Not" else {"object"}, True)})
+        except tinfo.Undecided as e:
+            chk.instance(rid, d, ok=None)
+            chk.fail_closed(rid, "%s::type_info could not be evaluated abstractly: %s" % (label, e))
+            continue
+        d["result"] = repr(td)
+        chk.instance(rid, d, ok=td.fallible)
+        if not td.fallible:
+            chk.violation(rid, facts.body(name).file, name, "%s drops the fallibility of its operand" % label,
+                          "%s: the operand is always evaluated and fallible, but the expression is typed infallible (its error is neither handled nor "
+                          "reported, e.g. `parse_json(raw).status` without `!`)" % label, detail=d)
